@@ -15,6 +15,7 @@ import (
 	"github.com/tetratelabs/wazero"
 	"github.com/tetratelabs/wazero/api"
 	"github.com/tetratelabs/wazero/experimental"
+	"github.com/tetratelabs/wazero/imports/wasi_snapshot_preview1"
 	"github.com/tetratelabs/wazero/sys"
 
 	"verifharness/sim"
@@ -85,13 +86,32 @@ const (
 var shapeNames = []string{"loop", "nested-loops", "br_table-reentry", "loop-around-recursion", "self-return_call", "mutual-return_call", "return_call_indirect", "call_indirect-in-loop", "loop-entered-from-host-callback", "return_call-into-looping-function",
 	"loop-with-br_if-back-edge", "loop-with-br_table-back-edges", "loop-with-br_table-default-back-edge", "loop-in-imported-module-function", "loop-in-callee-of-imported-module-function"}
 
+// guestWASI: the guests' cycles also call WASI sched_yield (function index 1; every other function moves
+// up by one), so the running code depends on the module's system context while the module is closed
+// under it.  Set per scenario by runScenario.
+var guestWASI bool
+
+// fx maps the function indexes written in the shapes (h=0, run=1, ...) to the real ones.
+func fx(i uint32) uint32 {
+	if guestWASI && i >= 1 {
+		return i + 1
+	}
+	return i
+}
+
 // buildGuest returns the module and the number of host-call sites in the cycle.
 func buildGuest(shape int, yield bool, pad int) ([]byte, int) {
 	m := &wasmb.Module{}
 	i32 := []wasmb.ValType{wasmb.I32}
 	h := m.ImportFunc("env", "h", i32, nil)
+	if guestWASI {
+		m.ImportFunc("wasi_snapshot_preview1", "sched_yield", nil, i32)
+	}
 	sites := 0
 	tick := func(c *wasmb.Code, tag int32) {
+		if guestWASI {
+			c.Call(1).Drop()
+		}
 		if yield {
 			c.I32Const(tag).Call(h)
 			sites++
@@ -146,37 +166,37 @@ func buildGuest(shape int, yield bool, pad int) ([]byte, int) {
 		c := &wasmb.Code{}
 		enter(c)
 		c.Loop(wasmb.BlockVoid)
-		c.I32Const(int32(4 + pad)).Call(2).Drop()
+		c.I32Const(int32(4 + pad)).Call(fx(2)).Drop()
 		tick(c, 1)
 		c.Br(0).End()
 		m.AddFunc(nil, nil, nil, c.B, "run")
 		r := &wasmb.Code{}
 		r.LocalGet(0).I32Eqz().If(wasmb.BlockVoid).I32Const(0).Return().End()
-		r.LocalGet(0).I32Const(1).I32Sub().Call(2).I32Const(1).I32Add()
+		r.LocalGet(0).I32Const(1).I32Sub().Call(fx(2)).I32Const(1).I32Add()
 		m.AddFunc(i32, i32, nil, r.B, "")
 	case shSelfTail:
 		c := &wasmb.Code{}
 		enter(c)
-		c.ReturnCall(2)
+		c.ReturnCall(fx(2))
 		m.AddFunc(nil, nil, nil, c.B, "run")
 		s := &wasmb.Code{}
 		padding(s)
 		tick(s, 1)
-		s.ReturnCall(2)
+		s.ReturnCall(fx(2))
 		m.AddFunc(nil, nil, nil, s.B, "")
 	case shMutualTail:
 		c := &wasmb.Code{}
 		enter(c)
-		c.ReturnCall(2)
+		c.ReturnCall(fx(2))
 		m.AddFunc(nil, nil, nil, c.B, "run")
 		f := &wasmb.Code{}
 		tick(f, 1)
 		padding(f)
-		f.ReturnCall(3)
+		f.ReturnCall(fx(3))
 		m.AddFunc(nil, nil, nil, f.B, "")
 		g := &wasmb.Code{}
 		tick(g, 2)
-		g.ReturnCall(2)
+		g.ReturnCall(fx(2))
 		m.AddFunc(nil, nil, nil, g.B, "")
 	case shTailIndirect:
 		c := &wasmb.Code{}
@@ -189,7 +209,7 @@ func buildGuest(shape int, yield bool, pad int) ([]byte, int) {
 		s.I32Const(0).ReturnCallIndirect(m.AddType(nil, nil), 0)
 		m.AddFunc(nil, nil, nil, s.B, "")
 		m.Tables = []wasmb.Table{{Elem: wasmb.FuncRef, Lim: wasmb.Limits{Min: 1}}}
-		m.Elems = []wasmb.Elem{{Mode: 0, Offset: wasmb.ConstI32(0), Funcs: []uint32{2}}}
+		m.Elems = []wasmb.Elem{{Mode: 0, Offset: wasmb.ConstI32(0), Funcs: []uint32{fx(2)}}}
 	case shCallIndirectLoop:
 		c := &wasmb.Code{}
 		enter(c)
@@ -202,7 +222,7 @@ func buildGuest(shape int, yield bool, pad int) ([]byte, int) {
 		tick(s, 1)
 		m.AddFunc(nil, nil, nil, s.B, "")
 		m.Tables = []wasmb.Table{{Elem: wasmb.FuncRef, Lim: wasmb.Limits{Min: 1}}}
-		m.Elems = []wasmb.Elem{{Mode: 0, Offset: wasmb.ConstI32(0), Funcs: []uint32{2}}}
+		m.Elems = []wasmb.Elem{{Mode: 0, Offset: wasmb.ConstI32(0), Funcs: []uint32{fx(2)}}}
 	case shHostEntered:
 		// run calls h(9); the host calls the exported "spin"
 		c := &wasmb.Code{}
@@ -253,7 +273,7 @@ func buildGuest(shape int, yield bool, pad int) ([]byte, int) {
 	case shTailIntoLoop:
 		c := &wasmb.Code{}
 		enter(c)
-		c.ReturnCall(2)
+		c.ReturnCall(fx(2))
 		m.AddFunc(nil, nil, nil, c.B, "run")
 		s := &wasmb.Code{}
 		s.Loop(wasmb.BlockVoid)
@@ -401,6 +421,13 @@ func runScenario(t *tape.Tape, cfg sim.Config, listen bool) (res sim.Result) {
 	res.Shape = sim.ShapeOf(fmt.Sprint(sc))
 	res.Logf("scenario %+v", sc)
 	fmt.Fprintf(os.Stderr, "C07 scenario (engine %s): %+v\n", cfg.Engine, sc)
+	// in a third of the scenarios the cycle also calls WASI sched_yield: code that uses the module's
+	// system context while the module is closed under it
+	guestWASI = t.Chance(1, 3)
+	defer func() { guestWASI = false }()
+	if guestWASI {
+		res.Stat("probe.cycle_calls_wasi", 1)
+	}
 	bin, sites := buildGuest(shape, yield, pad)
 	var binB []byte
 	if shape == shCrossModuleLoop || shape == shCrossModuleNestedLoop {
@@ -417,6 +444,11 @@ func runScenario(t *tape.Tape, cfg sim.Config, listen bool) (res sim.Result) {
 	rc = rc.WithCloseOnContextDone(true).WithCoreFeatures(api.CoreFeaturesV2 | experimental.CoreFeaturesTailCall)
 	rt := wazero.NewRuntimeWithConfig(bg, rc)
 	defer rt.Close(bg)
+	if guestWASI {
+		if _, err := wasi_snapshot_preview1.Instantiate(bg, rt); err != nil {
+			panic(err)
+		}
+	}
 	// cctx: the context of compilations (with the listener factory, if any)
 	cctx := bg
 	var br *bracket
@@ -564,6 +596,18 @@ func runScenario(t *tape.Tape, cfg sim.Config, listen bool) (res sim.Result) {
 	}
 	var ee *sys.ExitError
 	if !errors.As(callErr, &ee) {
+		if guestWASI && (cause == causeClose || cause == causeRuntimeClose) && callErr != nil &&
+			strings.Contains(callErr.Error(), "nil pointer dereference") && strings.Contains(callErr.Error(), "wasi_snapshot_preview1.sched_yield") {
+			// recorded known finding: Close from another goroutine sets ModuleInstance.Sys to nil under the
+			// running guest, whose next WASI call dereferences it; the call does end and the module is closed
+			res.Known = append(res.Known, "wasi-call-under-concurrent-close-nil-dereference")
+			if !mod.IsClosed() {
+				res.Fail("not-closed", "%+v: call returned %v but the module is not closed", sc, firstLine(callErr))
+			}
+			res.Trace = res.Trace[:1]
+			res.Logf("returned (exit error or the known nil dereference)")
+			return
+		}
 		res.Fail("wrong-error", "%+v: call returned %v, expected an exit error", sc, callErr)
 		return
 	}
@@ -606,8 +650,20 @@ func runScenario(t *tape.Tape, cfg sim.Config, listen bool) (res sim.Result) {
 	res.Logf("returned %v after %d callbacks (%d after close)", callErr, calls, afterClosed)
 	// the log must be deterministic: replace the counts (timing dependent for deadlines and pure spins)
 	res.Trace = res.Trace[:1]
+	if guestWASI && (cause == causeClose || cause == causeRuntimeClose) {
+		// same line as on the known-finding path: which of the two happens is a matter of real timing
+		res.Logf("returned (exit error or the known nil dereference)")
+		return
+	}
 	res.Logf("returned exit code %#x", ee.ExitCode())
 	return
+}
+
+func firstLine(err error) string {
+	if err == nil {
+		return "<nil>"
+	}
+	return strings.SplitN(err.Error(), "\n", 2)[0]
 }
 
 func t0delay(k int) time.Duration { return time.Duration(k*100) * time.Microsecond }
